@@ -112,6 +112,10 @@ def run(ctx, w):
     c17.clamp_rule(ctx, w, S, R)
     # "row < rows and col <= cols": every value handed to the cursor setters is bounded (C05.V9/V10)
     c05.addressing_rules(ctx, w, S, R)
+    shared.invariant_rule(ctx, w, S, R, "R11")
+    # "changed-line indices ... all smaller than rows": the report is taken AFTER the size change (C15.M4)
+    from rules import c15
+    c15.report_rules(ctx, w, S)
     if ctx.tier == "thorough":
         witnesses(ctx, w)
 
